@@ -6,6 +6,7 @@ raises TranslateError("file:line: ...") and the run stops (the tie is then repor
 
 Generated: Gen/Tables.v  (parser rules, instruction class table, field tables, enums, constants)
            Gen/Leaves.v  (lattice leaf functions of fee/addr/int domains, detectors' checks_field)
+           Gen/KeysGen.v (index/key classification: _get_index, get_index_and_field, is_value_matches_key)
 """
 import ast
 import os
